@@ -386,7 +386,19 @@ func genC04(g *Gen, tier string, idx int) *wire.Scenario {
 				}
 				sc.Script = append(sc.Script, tok("i", "vi-insertion-mode"))
 			} else {
-				switch g.N(4) {
+				switch g.N(5) {
+				case 4:
+					// two sections at once: the persistent one (macro being recorded) and a message below it
+					sc.Script = append(sc.Script, tok("\x18(", "start-kbd-macro"))
+					switch g.N(3) {
+					case 0:
+						sc.Script = append(sc.Script, tok("\x12", "reverse-search-history"), tok("a", "isearch-char"), tok("\x07", "abort"))
+					case 1:
+						sc.Script = append(sc.Script, tok("\x18\x12", "re-read-init-file"), tok("b", "self-insert"))
+					default:
+						sc.Script = append(sc.Script, tok("\x1b2", "digit-argument"), tok("c", "self-insert"))
+					}
+					sc.Script = append(sc.Script, tok("\x18)", "end-kbd-macro"))
 				case 0:
 					sc.Script = append(sc.Script, tok("\x18(", "start-kbd-macro"), tok("a", "self-insert"), tok("\x18)", "end-kbd-macro"))
 				case 1:
@@ -434,6 +446,34 @@ func genC04(g *Gen, tier string, idx int) *wire.Scenario {
 	return sc
 }
 
+// c04HintCmds put something in the rows below the input area (a hint, a message, a list).
+var c04HintCmds = map[string]bool{"macro-toggle-record": true, "start-kbd-macro": true, "digit-argument": true, "vi-arg-digit": true,
+	"re-read-init-file": true, "reverse-search-history": true, "forward-search-history": true, "macro-run": true}
+
+// judgeBelow: the rows under the input area of a frame that judgeFrame found right are blank.
+func judgeBelow(w *sim.Snap) (sig, msg string) {
+	t := w.Screen
+	buf := []rune(w.Line)
+	if t == nil || strings.ContainsRune(w.Line, '\t') {
+		return "", ""
+	}
+	anchorRow := w.AnchorAbsRow - t.Scrolled
+	anchorCol := w.ReportCol - 1
+	if w.ReportWrap {
+		anchorRow, anchorCol = anchorRow+1, 0
+	}
+	l := refLayout(buf, w.Pos, anchorRow, anchorCol, t.W)
+	for r := l.lastRow + 1; r < t.H; r++ {
+		for c := 0; c < t.W; c++ {
+			if cell := t.Rows[r][c]; !cell.Blank() {
+				return "layout:remnant-below:" + shapeClass(buf, anchorCol, t.W), fmt.Sprintf("cell (%d,%d) below the input area (rows %d..%d) shows %q although nothing was ever displayed there but earlier content of the input area; buffer %q cursor %d, terminal %dx%d; screen %q",
+					r, c, anchorRow, l.lastRow, cell.S, w.Line, w.Pos, t.W, t.H, t.Dump())
+			}
+		}
+	}
+	return "", ""
+}
+
 func execC04(x *Ctx, sc *wire.Scenario) *wire.Result {
 	res := okResult(sc)
 	out := runSession(x, sc, sc.Plan, sim.Hooks{}, true)
@@ -476,6 +516,20 @@ func execC04(x *Ctx, sc *wire.Scenario) *wire.Result {
 		case "ok":
 			res.Counters["frames_judged"]++
 			res.Nontrivial = true
+			// below the input area: nothing, as long as no command of the script has put up a hint
+			// (rows that an earlier, taller content of the input area occupied must have been erased)
+			quiet := true
+			for k := 0; k < w.Tokens && k < len(sc.Script); k++ {
+				if c04HintCmds[sc.Script[k].Cmd] {
+					quiet = false
+				}
+			}
+			if quiet {
+				if sig, msg := judgeBelow(w); sig != "" {
+					return violation(res, "LAYOUT", "C04.no-remnants", sig, fmt.Sprintf("frame after %d keys (%s): %s", w.Tokens, lastCmd(sc, w.Tokens), msg))
+				}
+				res.Counters["frames_judged_below"]++
+			}
 		case "unjudged":
 			res.Counters["frames_unjudged"]++
 		default:
